@@ -828,7 +828,7 @@ def run(ctx):
                                             "verdict": verdicts[e["id"]]}})
     # extension beyond the listed property (never a VIOLATION): the HD wallet objects' life cycle, spec/HDWallet.tla
     from . import ext_hd
-    ext_hd.stage(ctx)
+    ctx.run_extension("HDWallet", ext_hd.stage, ctx)
 
 
 def replay(ctx, path):
